@@ -403,8 +403,12 @@ func (e *Engine) computeModsPass() {
 		for _, fn := range fns {
 			mi := e.modCache[fn]
 			pureSpec := false
+			var unprovenFrame map[string]bool
 			if sp := e.Specs.Funcs[fnKey(fn)]; sp != nil && sp.Pure && !e.ignorePure {
 				pureSpec = true // writes no pre-existing memory: checked by the frame obligations of that function
+				if strictFrames {
+					unprovenFrame = sp.frameExcepted() // ... except for the heap classes whose frame obligation is excepted
+				}
 			}
 			add := func(set map[string]bool, n string) {
 
@@ -430,9 +434,14 @@ func (e *Engine) computeModsPass() {
 						ex = append(ex, a...)
 						fr = append(fr, b2...)
 					}
-					if !pureSpec {
-						for _, n := range ex {
+					for _, n := range ex {
+						switch {
+						case !pureSpec || unprovenFrame[n] || (n == "*" && len(unprovenFrame) > 0):
 							add(mi.Exist, n)
+						case n == "*":
+							// pure with every frame obligation proved: nothing pre-existing is written
+						default:
+							add(mi.Fresh, n)
 						}
 					}
 					for _, n := range fr {
